@@ -244,7 +244,13 @@ def _case(args):
             try:
                 if imm:
                     obj = obj.exhaust_lexer()
-                    return ['ok', canon(obj.feed_eof().result)]
+                    before_ = stack_of(obj)
+                    r_ = obj.feed_eof()
+                    if stack_of(obj) != before_:
+                        return ['immutable parser changed by its own feed_eof()', before_, stack_of(obj)]
+                    if not hasattr(r_, 'result'):
+                        return ['feed_eof() on an immutable parser returned %s, not a new parser' % type(r_).__name__]
+                    return ['ok', canon(r_.result)]
                 obj.exhaust_lexer()
                 return ['ok', canon(obj.feed_eof())]
             except UnexpectedToken as e:
